@@ -15,6 +15,14 @@ def sh(cmd, cwd=None, timeout=3600):
     p = subprocess.run(cmd, shell=True, cwd=cwd, env=ENV, stdout=subprocess.PIPE, stderr=subprocess.STDOUT, text=True, timeout=timeout)
     return p.returncode, p.stdout
 
+def demo_ok(rc, out):
+    # demo commands often end in a cleanup step, so the exit code alone is not reliable
+    if re.search(r'^(--- FAIL|FAIL\b|panic:|fatal error:)', out, re.M):
+        return False
+    if re.search(r'^(ok\s|PASS\b)', out, re.M):
+        return True
+    return rc == 0
+
 def main():
     seed, origwt, name = sys.argv[1], sys.argv[2].rstrip('/'), sys.argv[3]
     tier = 'both'
@@ -35,7 +43,7 @@ def main():
         # demo without the patch
         rc0, out0 = sh(demo_cmd, cwd=wt, timeout=1800)
         sh("git checkout -q -- . && git clean -fdq", cwd=wt)
-        res['demo_without_change'] = 'pass' if rc0 == 0 else 'FAIL'
+        res['demo_without_change'] = 'pass' if demo_ok(rc0, out0) else 'FAIL'
         rc, out = sh(f"git apply {seed}/patch.diff", cwd=wt)
         if rc != 0:
             res['apply'] = 'FAILED: ' + out[-500:]
@@ -46,8 +54,12 @@ def main():
             rc, out = sh(f"/verif/tools/baseline.sh {wt}", timeout=3600)
             res['existing_suite_with_change'] = out.strip().splitlines()[0] if out.strip() else ''
             res['existing_suite_ok'] = (rc == 0)
+            if rc != 0:
+                res['existing_suite_first_run_missing'] = [l for l in out.splitlines() if l.startswith('MISSING')][:10]
+                rc, out = sh(f"/verif/tools/baseline.sh {wt}", timeout=3600)
+                res['existing_suite_second_run'] = out.strip().splitlines()[0] if out.strip() else ''
         rc1, out1 = sh(demo_cmd, cwd=wt, timeout=1800)
-        res['demo_with_change'] = 'fail (as required)' if rc1 != 0 else 'PASSES (demo does not show the break)'
+        res['demo_with_change'] = 'fail (as required)' if not demo_ok(rc1, out1) else 'PASSES (demo does not show the break)'
         sh("git checkout -q -- . && git clean -fdq", cwd=wt)
         # our check
         det = {}
